@@ -13,6 +13,7 @@ from __future__ import annotations
 from functools import lru_cache
 import itertools as itt
 
+from ..builder import build_ops, replay_sequence, run_sequences
 from ..graphs import G, enum_L, enum_O, msep, subsets
 from ..runner import Res
 from ..y0util import V, snapshot, to_y0
@@ -30,10 +31,43 @@ def _universe(tier):
     return [g for n in (1, 2, 3, 4) for g in enum_L(n)] + list(enum_O(5, max_edges=4)) + [g for g in dags5 if len(g.di) == 5]
 
 
+NAMES6 = tuple("ABCDEF")
+PAIRS6 = [(i, j) for i in range(6) for j in range(i + 1, 6)]
+
+
+def _dag6(mask) -> G:
+    if mask < 0:  # the 1024 name-ordered five-node DAGs are screened too (numbered -1024..-1)
+        names = NAMES6[:5]
+        prs = [(i, j) for i in range(5) for j in range(i + 1, 5)]
+        return G(names, tuple((names[i], names[j]) for k, (i, j) in enumerate(prs) if (mask + 1024) >> k & 1), ())
+    return G(NAMES6, tuple((NAMES6[i], NAMES6[j]) for k, (i, j) in enumerate(PAIRS6) if mask >> k & 1), ())
+
+
+def upstream_only(g: G) -> bool:
+    """True if some pair of the DAG has no minimum-size separator among the parents of its two nodes (the minimum
+    separators all reach further upstream): the graphs on which a search confined to a neighbourhood goes wrong.
+    5 of the 1024 name-ordered five-node DAGs and about 1.6 % of the six-node ones are of this kind."""
+    from ..graphs import msep_bb, parents
+
+    for a, b in itt.combinations(g.nodes, 2):
+        rest = [v for v in g.nodes if v not in (a, b)]
+        m = next((len(c) for c in subsets(rest) if msep_bb(g, a, b, c)), None)
+        if not m:
+            continue
+        pa = sorted((parents(g, a) | parents(g, b)) - {a, b})
+        if not any(msep_bb(g, a, b, c) for c in itt.combinations(pa, m)):
+            return True
+    return False
+
+
 def shards(tier):
     n = len(_universe(tier))
     size = 32 if tier == "quick" else 64
-    return [(i, min(i + size, n)) for i in range(0, n, size)]
+    out = [(i, min(i + size, n)) for i in range(0, n, size)]
+    out += [("six", i, i + 512) for i in range(-1024, 1 << 15, 512)]
+    # builder phase: one live graph object grown edge by edge, the independencies asked after every insertion
+    out += [("build", i) for i in range(len(build_ops()))]
+    return out
 
 
 def describe(tier):
@@ -43,7 +77,9 @@ def describe(tier):
             if tier == "quick"
             else "graphs: L(1..4) all labelled ADMGs + O(5, <=4 edges)"
         )
-        + " + name-ordered five-node DAGs with 4-5 edges; size limits k in {None, 0..n-2, n}; variants: default (topological) policy, len-lex policy via minimal(), "
+        + " + name-ordered five-node DAGs with 4-5 edges + those of all name-ordered five- and six-node DAGs (1024 + 32 768 screened) in which some pair "
+        "has no minimum separator among its nodes' parents (default policy, k in {None, 1, 2}); builder sequences: every sequence of 3 edge insertions over 4 names on one "
+        "live object, k in {None, 1} after every insertion; size limits k in {None, 0..n-2, n}; variants: default (topological) policy, len-lex policy via minimal(), "
         "return_all=True, len-lex policy with return_all on the graph renamed to names of unequal length; PYTHONHASHSEED in "
         + str(HASH_SEEDS[tier])
         + (" (seeds other than 0: graphs up to 3 nodes and four-node graphs up to 3 edges)" if tier == "quick" else ""),
@@ -169,12 +205,67 @@ def explore_graph(res: Res, g: G, only=None):
         res.violation("side_effect", {"graph": g.to_json()}, "the caller's graph was modified")
 
 
+def explore_six(res: Res, g: G, only=None):
+    from y0.algorithm.conditional_independencies import get_conditional_independencies
+
+    yg = to_y0(g)
+    mins = min_sep_sizes(g)
+    for k in (None, 1, 2):
+        case = {"graph": g.to_json(), "k": k, "variant": "default"}
+        if only and only.get("k") != k:
+            continue
+        res.states += 1
+        res.transitions += 1
+        try:
+            out = get_conditional_independencies(yg, max_conditions=k)
+        except Exception as e:  # noqa
+            res.violation("exception", case, f"raised {type(e).__name__}: {e}")
+            continue
+        good = check_result(res, g, case, out, mins, k)
+        res.outcomes["exact" if good else "wrong"] += 1
+        res.extra["judgements_checked"] += len(out)
+
+
+def _builder_judge(res):
+    from y0.algorithm.conditional_independencies import get_conditional_independencies
+
+    def judge(y, g, hist):
+        mins = min_sep_sizes(g)
+        for k in (None, 1):
+            case = {"builder_ops": hist, "k": k}
+            res.transitions += 1
+            try:
+                out = get_conditional_independencies(y, max_conditions=k)
+            except Exception as e:  # noqa
+                res.violation("exception", case, f"after growing one graph object by {hist}: raised {type(e).__name__}: {e}")
+                return False
+            if not check_result(res, g, case, out, mins, k):
+                res.outcomes["wrong_after_mutation"] += 1
+                return False
+        res.outcomes["builder_step_ok"] += 1
+        return True
+
+    return judge
+
+
 def work(shard, tier, seed):
     import os
 
     hs = int(os.environ.get("PYTHONHASHSEED", "0") or 0)
-    lo, hi = shard
     res = Res()
+    if shard[0] == "build":
+        if hs == 0:
+            res.states += run_sequences(shard[1], 3, _builder_judge(res))
+        return res
+    if shard[0] == "six":
+        if hs == 0:
+            for mask in range(shard[1], shard[2]):
+                g = _dag6(mask)
+                res.extra["six_node_dags_screened"] += 1
+                if upstream_only(g):
+                    explore_six(res, g)
+        return res
+    lo, hi = shard
     for g in _universe(tier)[lo:hi]:
         if tier == "quick" and hs != 0 and len(g.nodes) >= 4 and len(g.di) + len(g.bi) > 3:
             continue  # quick: other hash seeds revisit the graphs up to 3 nodes and the sparse four-node ones
@@ -183,7 +274,13 @@ def work(shard, tier, seed):
 
 
 def replay(case, clause=None):
-    g = G.from_json(case["graph"])
     res = Res()
+    if "builder_ops" in case:
+        replay_sequence(case["builder_ops"], _builder_judge(res))
+        return [v for v in res.violations if clause is None or v["clause"] == clause]
+    g = G.from_json(case["graph"])
+    if len(g.nodes) == 6 or (len(g.nodes) == 5 and len(g.di) > 5):
+        explore_six(res, g, only=case)
+        return [v for v in res.violations if clause is None or v["clause"] == clause]
     explore_graph(res, g, only=case)
     return [v for v in res.violations if clause is None or v["clause"] == clause]
